@@ -10,7 +10,7 @@ is generated and proved by the reflexive checker Base/TrigMat.mcheck_eq_sound
 (invert, +, copy, on_qubits) are covered by the static theorems of
 Proofs/CircuitOps.v plus traced instances.
 """
-STATIC = ["Base/TrigMat", "C05/Props", "C05/InstMat", "Base/SemProps", "C05/PropsComp"]
+STATIC = ["Base/TrigMat", "C05/Props", "C05/InstMat", "Base/SemProps", "C05/PropsComp", "C05/PropsMeas"]
 import itertools
 import math
 import random
@@ -18,7 +18,7 @@ import random
 import numpy as np
 
 from lib import qtrace, symtrace as st
-from harness import c05_comp
+from harness import c05_comp, c05_meas
 from lib.qtrace import nat_list
 from lib.symtrace import TraceError, Lin, PI
 from fractions import Fraction
@@ -407,6 +407,8 @@ def main(run):
             run.case(["circuit-op", nm])
     # ---- compositions of circuit-level operations (Coq model + prescribed operator; concrete inputs)
     compositions(run, random.Random(run.seed + 505), 260 if run.tier == "quick" else 2500)
+    # ---- measurement gates through the relabelling / copying operations (every representation of p0 / p1, bases, orders)
+    c05_meas.stream(run, random.Random(run.seed + 515), 240 if run.tier == "quick" else 2400)
     # ---- translator cross-check (numeric): traced matrices vs real gate.matrix()
     tr_bad = crosscheck_tracer(run, rng)
     # ---- operations that raised on gates documented to accept them
@@ -468,7 +470,11 @@ def main(run):
 RULE = ("one case per (gate class x operation x placement x controls x updated-after-construction); every class of "
         "gates.py is enumerated; placements are non-ascending and non-adjacent; distinct = distinct recipe; "
         "compositions: 10 fixed + random sequences of 2-4 circuit operations (invert, +, copy, on_qubits, fuse) on two source "
-        "circuits of 3-6 gates (every class, generic controls, trainable=False, updated, Unitary), distinct = distinct (sequence, sources)")
+        "circuits of 3-6 gates (every class, generic controls, trainable=False, updated, Unitary), distinct = distinct (sequence, sources); "
+        "measurements: 24 fixed + random gates.M on 1-3 of 2-5 qubits (non-ascending / cyclic target orders) x 9 representations of p0 and p1 "
+        "(None, float, list, tuple, dictionary full / sorted / shuffled / partial / integer-valued) x bases (class, string, per-qubit lists) x "
+        "collapse x register name, through 1-3 of M.on_qubits / Circuit.on_qubits / light_cone / copy(deep) / copy / invert / +, exact vs the "
+        "relabelled description, vs C05/MeasModel.run and (probabilities 0/1, eigenstates) vs sampled frequencies of a fresh circuit")
 
 
 def crosscheck_tracer(run, rng):
@@ -500,6 +506,13 @@ def crosscheck_tracer(run, rng):
 
 def replay(run, data):
     rp = data["replay"]
+    if "meas" in rp:
+        probs = c05_meas.replay_case(run, rp["meas"])
+        for kind, what in probs:
+            print("replay:", kind, what)
+        if probs:
+            run.find(data["key"], probs[0][1], rp)
+        return run.finish(rule="replay of one recorded measurement case")
     if "compose" in rp:
         case = rp["compose"]
         txt, probs, shape = c05_comp.run_case(case)
